@@ -156,6 +156,63 @@ def _replay_history(item):
     return out
 
 
+def _np_def(P, S, metric):
+    """independent float evaluation of the definition for long curves (interpolate, accumulate, normalise)."""
+    n = len(P)
+    x, y = P[:, 0], P[:, 1]
+    h = np.interp(x, x[S], y[S])
+    mask = np.ones(n, bool)
+    for a, b in zip(S[:-1], S[1:]):
+        if b - a + 1 <= 2:
+            mask[a:b + 1] = False
+    # every interior breakpoint belongs to two segments; its own error is 0, so one pass over the points is enough
+    yy, hh = y[mask], h[mask]
+    eps = 1e-16
+    tot = n + len(S) - 2
+    if metric == "r2":
+        rss = math.fsum((yy - hh) ** 2)
+        tss = math.fsum((y - y.mean()) ** 2)
+        v = 1.0 - rss if tss == 0 else 1.0 - rss / tss
+    elif metric == "rmsle":
+        v = math.sqrt(math.fsum((np.log(yy + 1) - np.log(hh + 1)) ** 2) / tot)
+    elif metric == "rmspe":
+        v = math.sqrt(math.fsum(((yy - hh) / (yy + eps)) ** 2) / tot)
+    elif metric == "rpd":
+        v = math.fsum(np.abs((yy - hh) / (np.maximum(yy, hh) + eps))) / tot
+    else:
+        v = math.fsum(2.0 * np.abs(hh - yy) / (np.abs(yy) + np.abs(hh) + eps)) / tot
+    return max(v, 0.0)
+
+
+def _record_big(item):
+    """T: one long curve (more points than fit 16-bit packing tricks), histories whose segments share a right end."""
+    import random
+    import kneeliverse.evaluation as ev
+    import kneeliverse.metrics as metrics
+    cid, seed, n = item
+    rng = random.Random(seed)
+    x = np.arange(1, n + 1, dtype=float)
+    P = np.column_stack([x, 1.0 / (1.0 + x / 4.0) + 0.001 * np.sin(x / 50.0) + 0.01])
+    metric = rng.choice(METRICS)
+    r = rng.randint(n - 5000, n - 3)
+    queries = [[0, r, n - 1], [0, 1, r, n - 1], [0, 2, r, n - 1], [0, r, n - 1], [0, 1, 2, r, n - 1]]
+    rng.shuffle(queries)
+    M = metrics.Metrics(metric)
+    shared = {}
+    events = []
+    for S in queries:
+        v1 = ev.compute_global_cost(P, np.array(S), M, shared)
+        v2 = ev.compute_global_cost(P, np.array(S), M)
+        d = _np_def(P, S, metric)
+        events.append({"S": S, "outcome": "returned", "keys": sorted([_key(k) for k in shared if k != "tss"]), "tss": "tss" in shared,
+                       "shared_eq_fresh": _bits(v1) == _bits(v2),
+                       "defcls": "equal" if numeric.close(v1, d, rel=1e-6, ab=1e-9) else "differs",
+                       "nonneg": bool(v1 >= 0), "perfect": "na", "value": float(v1), "expected": d})
+    case = {"id": cid, "n": n, "metric": metric,
+            "events": [{k: e[k] for k in ("S", "outcome", "keys", "tss", "shared_eq_fresh", "defcls", "nonneg", "perfect")} for e in events]}
+    return case, {"big": [cid, seed, n], "metric": metric, "queries": queries, "values": [(e["value"], e["expected"]) for e in events]}, []
+
+
 def _record_random(item):
     """T: random float curve, random history of up to 8 queries."""
     import random
@@ -235,11 +292,12 @@ def run(ctx):
     # ---- T
     nT = 600 if ctx.quick else 6000
     rec = par.pmap(_record_random, [("h%d" % k, ctx.seed * 100003 + k) for k in range(nT)])
+    rec += par.pmap(_record_big, [("big%d" % k, ctx.seed * 7 + k, nn) for k, nn in enumerate([70000, 140000] if ctx.quick else [70000, 140000, 300000, 66000])])
     cases = [c for c, _, _ in rec]
     meta = {c["id"]: m for c, m, _ in rec}
     rej = ctx.trace("Trace_GlobalCost", cases, selftest=_selftests(), chunk=300)
     for c, m, extra in rec:
-        ctx.count(("T", m["points"], m["metric"], m["queries"]), True)
+        ctx.count(("T", m.get("points", m.get("big")), m["metric"], m["queries"]), True)
         for clause, detail in extra:
             ctx.violation(clause, {"kind": "Tx", "seed_item": [c["id"], 0], "points": m["points"], "S": detail.get("S")}, detail)
     for cid, vs in rej.items():
@@ -247,6 +305,9 @@ def run(ctx):
         vs = [v for v in vs if not v[0].startswith("DRIFT:")] or None
         if vs is None:
             ctx.note("DRIFT:cache-keys in recorded history %s" % cid)
+            continue
+        if "big" in m:
+            ctx.violation(vs[0][0], {"kind": "Tbig", "big": m["big"]}, {"verdict": vs[0], "values": m["values"], "metric": m["metric"]})
             continue
         ctx.violation(vs[0][0] if vs[0][0] != "equals-definition" else "equals-definition(%s)" % m["metric"],
                       {"kind": "T", "points": m["points"], "metric": m["metric"], "queries": m["queries"]},
@@ -259,6 +320,12 @@ def replay(ctx, obj):
     if c["kind"] == "G":
         for clause, detail, P in _replay_history((c["behaviour"], c.get("seed", 0))):
             ctx.violation(clause, c, dict(detail, points=P))
+    elif c["kind"] == "Tbig":
+        case, m, _ = _record_big(tuple(c["big"]))
+        rej = ctx.trace("Trace_GlobalCost", [case])
+        for cid, vs in rej.items():
+            if not vs[0][0].startswith("DRIFT:"):
+                ctx.violation(vs[0][0], c, {"verdict": vs[0], "values": m["values"]})
     elif c["kind"] == "Tx":
         for clause, detail in _rmse_mip(np.array(c["points"], float), c["S"]):
             ctx.violation(clause, c, detail)
